@@ -108,10 +108,49 @@ theorem clearSubsRootItems_no_copy (t : Table) (b : SId) :
     List.mem_map.mpr ⟨e, List.mem_filter.mpr ⟨hlive, by simp [hb]⟩, rfl⟩
   exact deleteAll_spared _ t e he _ hin ⟨(rootAddr_root e.addr).symm, rootAddr_prefix e.addr⟩
 
+theorem clearItems_sub (t : Table) (a : Addr) : ∀ e ∈ (clearItems t a).live, e ∈ t.live :=
+  fun e he => deleteAll_sub _ t e he
+
+theorem clearSubsRootItems_sub (t : Table) (b : SId) : ∀ e ∈ (clearSubsRootItems t b).live, e ∈ t.live :=
+  fun e he => deleteAll_sub _ t e he
+
+theorem dynRefsChange_sub (t : Table) (b : SId) : ∀ e ∈ (dynRefsChange t b).live, e ∈ t.live :=
+  fun e he => deleteAll_sub _ t e he
+
 theorem nsChange_sub (t : Table) (b : SId) : ∀ e ∈ (nsChange t b).live, e ∈ t.live := by
   intro e he
   unfold nsChange at he
-  exact deleteAll_sub _ t e (deleteAll_sub _ _ e he)
+  exact clearItems_sub t _ e (clearSubsRootItems_sub _ b e he)
+
+/-- after `on_namespace_change()` of `b` no dynamic space built from `b` is left -/
+theorem nsChange_no_copy (t : Table) (b : SId) : ∀ e ∈ (nsChange t b).live, e.base ≠ b :=
+  clearSubsRootItems_no_copy _ b
+
+/-- the `on_delete` of the spaces `l`, one after the other: no dynamic space built from any of
+them is left, and nothing is added -/
+theorem foldl_onDelete_sub : ∀ (l : List SDef) (t : Table),
+    ∀ e ∈ (l.foldl (fun t x => clearItems (clearSubsRootItems t x.id) ⟨x.id, []⟩) t).live, e ∈ t.live
+  | [], _, e, he => he
+  | x :: xs, t, e, he =>
+    clearSubsRootItems_sub t x.id e (clearItems_sub _ _ e (foldl_onDelete_sub xs _ e he))
+
+theorem foldl_onDelete_no_copy : ∀ (l : List SDef) (t : Table),
+    ∀ e ∈ (l.foldl (fun t x => clearItems (clearSubsRootItems t x.id) ⟨x.id, []⟩) t).live,
+      ∀ x ∈ l, e.base ≠ x.id
+  | [], _, _, _, x, hx => by cases hx
+  | y :: ys, t, e, he, x, hx => by
+    rcases List.mem_cons.mp hx with rfl | hx
+    · have h1 := foldl_onDelete_sub ys _ e he
+      exact clearSubsRootItems_no_copy t x.id e (clearItems_sub _ _ e h1)
+    · exact foldl_onDelete_no_copy ys _ e he x hx
+
+/-- **after `del_defined_space(d)` no dynamic space built from a space of the deleted tree is
+left**, wherever it hangs -/
+theorem delSpace_no_copy (defs : Defs) (t : Table) (d : SDef) :
+    ∀ e ∈ (delSpace defs t d).2.live, ∀ x ∈ defs, d.path.isPrefixOf x.path = true → e.base ≠ x.id := by
+  intro e he x hx hp
+  unfold delSpace at he
+  exact foldl_onDelete_no_copy _ _ e he x (List.mem_filter.mpr ⟨hx, hp⟩)
 
 /-! ### lookup through a chain of maps -/
 
